@@ -132,8 +132,13 @@ def vectors_check(v, tier):
         cookies = [concrete(c) for c in vec['cookies']]
         r = Responder(threshold, seed=common.SEED)
         try:
-            for _ in range(vec['h']):
-                r.add_halfopen(vec.get('fill', 'distinct'))
+            fill = vec.get('fill', 'distinct')
+            for _ in range(vec['h'] + (1 if fill == 'churn' else 0)):
+                r.add_halfopen('distinct' if fill == 'churn' else fill)
+            if fill == 'churn':
+                # one more than h was created (the later ones under load, i.e. with a cookie); the FIRST one has gone on to completion since
+                # (its state is set directly: the initiators of this harness are scripted and do not run IKE_AUTH)
+                r.w.ctl['B'].ike_sas[0].state = wd.IkeSa.State.ESTABLISHED
             reply, dh, left = r.send(init_request(SPI[t['spi']], NONCE[t['nonce']], cookies, neg=vec.get('neg', 'ok')), t['addr'])
             kind, ck = r.classify(reply)
             exp = vec['out']
